@@ -74,8 +74,9 @@ struct Buf {
     Buf(const uint8_t *src, size_t n_);
     Buf(const Buf &) = delete; Buf &operator=(const Buf &) = delete;
     ~Buf();
-    uint8_t *p() { return base + 16; }
-    const uint8_t *p() const { return base + 16; }
+    enum { PAD = 256 };
+    uint8_t *p() { return base + PAD; }
+    const uint8_t *p() const { return base + PAD; }
     bool intact() const;
     Bytes bytes() const { return Bytes(p(), p() + n); }
 };
